@@ -157,6 +157,8 @@ def check(plan, ctx):
             ctx.excl("step needs key 'k' in every item")
             continue
         snaps = [_snap(n.real) for n in pool]
+        origins_before = [set(n.origins) for n in pool]
+        recv_origins_before = set(node.origins)
         expect_warning = node.obsolete and not node.warned
         buf = io.StringIO()
         random.seed(a)
@@ -224,7 +226,9 @@ def check(plan, ctx):
                 raise Violation("obsolete flag differs from the derivation model", step=stepno, op=op, list=idx,
                                 real=bool(n.real._obsolete), model=n.obsolete, depth=n.depth)
         for idx, (n, before) in enumerate(zip(pool, snaps)):
-            if op in EDIT and (n.origins & node.origins):
+            # sharing is judged by the state *before* the call: a join must not touch a right-hand
+            # argument that shared nothing with the receiver when it was called
+            if op in EDIT and (origins_before[idx] & recv_origins_before):
                 continue
             if _snap(n.real) != before:
                 what = "a non-modifying method changed item contents" if op not in EDIT else \
